@@ -128,13 +128,22 @@ func verifHandlerSmallPanic(ctx context.Context, conn Connection) error {
 //  4: OnRequest, handler {consume all, consume some, Close, panic}, 2 closers
 //
 //verif:po
-//verif:bounds 1 delivery (size symbolic in [1,4]) + peer hang-up, 1-2 concurrent user Close, <= 3 task instances, state revisits <= 3; buffers summarised on length; poller slot recycling stubbed (C10)
-//verif:param 0 2
+//verif:bounds configurations 0-1: 1 delivery (size symbolic in [1,4]) + peer hang-up, 1 user Close, 1 close callback, <= 3 task instances, state revisits <= 2 (enough for one close callback: the witness of a quiescent execution is checked); buffers summarised on length; poller slot recycling stubbed (C10)
+//verif:param 0 1
+//verif:loop 40
+//verif:poloop 2
+//verif:potimeout 600
+//verif:also C19
+func verifHarness_C05_teardown(cfg int) { verifTeardown(cfg) }
+
+//verif:po
+//verif:bounds configuration 2: no request handler, 2 concurrent user Close + peer hang-up, 2 close callbacks (reverse order), state revisits <= 3
+//verif:param 2 2
 //verif:loop 40
 //verif:poloop 3
 //verif:potimeout 600
 //verif:also C19
-func verifHarness_C05_teardown(cfg int) { verifTeardown(cfg) }
+func verifHarness_C05_teardowncb(cfg int) { verifTeardown(cfg) }
 
 //verif:po
 //verif:tier thorough
@@ -150,9 +159,9 @@ func verifTeardown(cfg int) {
 	closers := 1
 	switch cfg {
 	case 0:
-		c = verifNewConn(verifConnCfg{onRequest: true, closeCBs: 2, handler: verifHandlerSmall})
+		c = verifNewConn(verifConnCfg{onRequest: true, closeCBs: 1, handler: verifHandlerSmall})
 	case 1:
-		c = verifNewConn(verifConnCfg{onRequest: true, closeCBs: 2, handler: verifHandlerSmallPanic})
+		c = verifNewConn(verifConnCfg{onRequest: true, closeCBs: 1, handler: verifHandlerSmallPanic})
 	case 2:
 		c = verifNewConn(verifConnCfg{closeCBs: 2})
 		closers = 2
